@@ -33,12 +33,14 @@ type Contract struct {
 	WrapsUnsigned bool // unsigned arithmetic wraps silently (defined by the language, intended here)
 	NoOvf    bool // do not generate overflow obligations
 	Requires []*Clause
+	Assumes  []*Clause
 	Ensures  []*Clause
 	Modifies []*Expr // nil = inferred; non-nil (possibly empty) = declared
 	HasMod   bool
 	LoopInv  map[int][]*Clause
 	LoopDec  map[int]*Clause
 	LoopMod  map[int][]*Expr // loop frame: locations the loop body may modify (for the keys they name)
+	LoopEns  map[int][]*Clause // per-iteration postconditions, checked at every back edge; iter(e) = value at the loop head
 	Params   []string // for iface / functype contracts: parameter names
 	File     string
 	Line     int
@@ -91,7 +93,7 @@ func hasProp(props []string, p string) bool {
 }
 
 var clauseKeywords = map[string]bool{
-	"props": true, "pure": true, "trusted": true, "wraps": true, "noovf": true, "requires": true, "ensures": true,
+	"props": true, "pure": true, "trusted": true, "wraps": true, "noovf": true, "requires": true, "ensures": true, "assumes": true,
 	"modifies": true, "loop": true, "params": true,
 }
 
@@ -156,20 +158,27 @@ func parseSpecFile(path, pkgPath string, sf *SpecFile) error {
 					kind = "func"
 				}
 				cur = &Contract{Kind: kind, Name: rest, Pkg: pkgPath, File: path, Line: i + 1,
-					LoopInv: map[int][]*Clause{}, LoopDec: map[int]*Clause{}, LoopMod: map[int][]*Expr{}}
+					LoopInv: map[int][]*Clause{}, LoopDec: map[int]*Clause{}, LoopMod: map[int][]*Expr{}, LoopEns: map[int][]*Clause{}}
 				sf.Contracts = append(sf.Contracts, cur)
 			case "chan":
 				// chan <Type.field> invariant <expr over v>
 				fs := strings.SplitN(rest, " ", 3)
-				if len(fs) < 3 || (fs[1] != "invariant" && fs[1] != "assume") {
+				if len(fs) < 3 || (fs[1] != "invariant" && fs[1] != "assume" && fs[1] != "closing") {
 					return fmt.Errorf("%s:%d: bad chan clause", path, i+1)
 				}
-				cur = &Contract{Kind: "chan", Name: fs[0], Pkg: pkgPath, File: path, Line: i + 1, Trusted: fs[1] == "assume"}
+				cur = &Contract{Kind: "chan", Name: fs[0], Pkg: pkgPath, File: path, Line: i + 1}
 				sf.Contracts = append(sf.Contracts, cur)
+				kw := "ensures"
+				if fs[1] == "assume" {
+					kw = "assumes"
+				}
+				if fs[1] == "closing" {
+					kw = "requires" // stored in Requires of the chan contract: message predicate after which the peer closes the channel
+				}
 				pending = &struct {
 					kw, text string
 					line     int
-				}{"ensures", fs[2], i + 1}
+				}{kw, fs[2], i + 1}
 			case "typeinv":
 				// typeinv <Type> [props C02 ...] <expr over self>
 				toks := strings.Fields(rest)
@@ -339,6 +348,13 @@ func addClause(c *Contract, kw, text, file string, line int) error {
 			return err
 		}
 		c.Requires = append(c.Requires, cl)
+	case "assumes":
+		// assumed at entry, not checked at call sites: an explicit, reported assumption
+		cl, err := mk("assumes", text)
+		if err != nil {
+			return err
+		}
+		c.Assumes = append(c.Assumes, cl)
 	case "ensures":
 		cl, err := mk("ensures", text)
 		if err != nil {
@@ -376,6 +392,13 @@ func addClause(c *Contract, kw, text, file string, line int) error {
 			}
 			cl.Loop = n
 			c.LoopInv[n] = append(c.LoopInv[n], cl)
+		case "ensures":
+			cl, err := mk("loopens", fs[2])
+			if err != nil {
+				return err
+			}
+			cl.Loop = n
+			c.LoopEns[n] = append(c.LoopEns[n], cl)
 		case "decreases":
 			cl, err := mk("decreases", fs[2])
 			if err != nil {
